@@ -645,14 +645,17 @@ type lsRepl struct {
 	clkMu   sync.Mutex
 }
 
+//go:norace
+func (r *lsRepl) tick() int64 {
+	r.clk++
+	return 1_000_000 + r.clk
+}
+
 func newLsRepl() *lsRepl {
 	r := &lsRepl{}
-	r.restore = distributed.VerifSetClock(func() int64 {
-		r.clkMu.Lock()
-		defer r.clkMu.Unlock()
-		r.clk++
-		return 1_000_000 + r.clk
-	})
+	// a plain counter without any synchronisation of its own (tasks run one at a time): a mutex
+	// or an atomic here would add happens-before edges between tasks and hide races from the detector
+	r.restore = distributed.VerifSetClock(r.tick)
 	other := newReplica(200)
 	for i := 0; i < 2; i++ {
 		other.st.SessionMetadatas().Create(fmt.Sprintf("fs%d", i), "fc", 1, nil, "_default")
@@ -923,10 +926,43 @@ func (x *lsRetx) final(ops []lsOp) string {
 	return ""
 }
 
+// ---- origin side of replication (C09 under concurrency) ----
+// Several tasks change the same session, subscription and retained keys on one node at the same
+// time (the broker runs 20 publish workers and one goroutine per connection). Whatever order the
+// node applied them in locally, a second node that receives every broadcast it queued must end
+// up listing exactly what the first lists.
+type lsOrigin struct {
+	r *lsRepl
+}
+
+func (o *lsOrigin) exec(s *Step) string                       { return o.r.exec(s) }
+func (o *lsOrigin) init() string                              { return "" }
+func (o *lsOrigin) step(state, in, out string) (bool, string) { return true, state }
+func (o *lsOrigin) final(ops []lsOp) string {
+	defer o.r.restore()
+	var msgs [][]byte
+	for {
+		b := o.r.bcast.GetBroadcasts(0, 1<<30)
+		if len(b) == 0 {
+			break
+		}
+		msgs = append(msgs, b...)
+	}
+	recv := newReplica(300)
+	for _, m := range msgs {
+		recv.st.Distributor().NotifyMsg(m)
+	}
+	a, b := listing(o.r.st), listing(recv.st)
+	if x, y := diffLists(a, b); len(x)+len(y) > 0 {
+		return fmt.Sprintf("after concurrent local changes the origin lists %v that a node fed with all %d broadcasts does not, and lacks %v", x, len(msgs), y)
+	}
+	return ""
+}
+
 // ---------------------------------------------------------------------------------------
 // running a case
 
-var lsObjects = []string{"registry", "idpool", "retained", "subscriptions", "sesstopics", "ackq", "repl", "retx", "replmerge"}
+var lsObjects = []string{"registry", "idpool", "retained", "subscriptions", "sesstopics", "ackq", "repl", "retx", "replmerge", "replorigin"}
 
 func buildLsObject(c *Case) lsObject {
 	switch lsObjects[int(c.knob("obj", 0))%len(lsObjects)] {
@@ -946,6 +982,8 @@ func buildLsObject(c *Case) lsObject {
 		return &lsAckq{q: ack.NewQueue(), fired: map[string]int{}, exp: map[string]int{}}
 	case "replmerge":
 		return newLsRepl()
+	case "replorigin":
+		return &lsOrigin{r: newLsRepl()}
 	case "retx":
 		return &lsRetx{q: ack.NewQueue(), pool: wasp.VerifNewMIDPool(1, 8), size: 8, alive: map[string]bool{"s1": true, "s2": true}, lastT: map[int]*retxGen{}}
 	default:
@@ -1155,6 +1193,27 @@ func genLsOps(r *Rand, objIdx int, c *Case, nt int, perTask int) {
 				}
 			}
 		}
+	case "replorigin": // every task works on the same few keys
+		for i := 0; i < nt; i++ {
+			for n := 0; n < perTask+1; n++ {
+				switch r.Intn(8) {
+				case 0, 1, 2:
+					c.Steps = append(c.Steps, Step{K: "tset", C: i, T: r.Pick([]string{"_default/r/x", "_default/r/y"}), S: fmt.Sprintf("v%d.%d", i, n)})
+				case 3:
+					c.Steps = append(c.Steps, Step{K: "tdel", C: i, T: r.Pick([]string{"_default/r/x", "_default/r/y"})})
+				case 4, 5:
+					c.Steps = append(c.Steps, Step{K: "ucreate", C: i, S: "sx", T: r.Pick([]string{"_default/a", "_default/a/b"}), Q: r.Intn(3)})
+				case 6:
+					c.Steps = append(c.Steps, Step{K: "udelete", C: i, S: "sx", T: r.Pick([]string{"_default/a", "_default/a/b"})})
+				default:
+					if r.Bool(0.5) {
+						c.Steps = append(c.Steps, Step{K: "screate", C: i, S: "sx", T: fmt.Sprintf("c%d", i)})
+					} else {
+						c.Steps = append(c.Steps, Step{K: "sdelete", C: i, S: "sx"})
+					}
+				}
+			}
+		}
 	case "replmerge":
 		for i := 0; i < nt; i++ {
 			for n := 0; n < perTask+1; n++ {
@@ -1236,7 +1295,10 @@ func init() {
 	real := []string{"wasp.lockedMapState, wasp.simpleMidPool, wasp/ack.Queue + expiration lists, topics.Store, subscriptions.Tree, wasp/distributed.State, wasp/sessions.Session (all instrumented with a yield before every statement and scheduler-aware try-locks)", "Go race detector (ThreadSanitizer)"}
 	stub := []string{"goroutine scheduling: tasks released one at a time by the simulator through raw pipe syscalls (no happens-before edges of its own)", "gotomic.Hash, memberlist.TransmitLimitedQueue, protobuf: not instrumented, atomic steps between yields"}
 	assume := []string{"the race detector keeps a bounded access history per location", "linearizability is checked with porcupine for histories of up to 24 operations; a timed-out check is inconclusive and never reported", "the in-flight table and the replicated state are judged by invariants (exactly-once resolution, distinct-key effects present) plus the race detector, not by a full linearizability model"}
-	all := []int{0, 1, 2, 3, 4, 5, 6, 7, 8}
+	all := []int{0, 1, 2, 3, 4, 5, 6, 7, 8, 9}
+	register(&Check{ID: "C09", Level: "exploration", Build: "lockstep", Gen: genLockstep([]int{9}), Run: runLockstep, QuickS: 15, ThoroughS: 200,
+		Rule: "concurrent variant: 2-4 tasks changing the same session, subscription and retained keys on one node under PRNG statement-level schedules, race detector on; afterwards a fresh node fed with every broadcast the origin queued must list exactly what the origin lists",
+		Real: real, Stub: stub, Assume: assume})
 	register(&Check{ID: "C08", Level: "exploration", Build: "lockstep", Gen: genLockstep([]int{8}), Run: runLockstep, QuickS: 15, ThoroughS: 200,
 		Rule: "concurrent variant: 2-4 tasks delivering competing updates for the same session, subscription and retained keys (NotifyMsg one at a time, MergeRemoteState batched) to one replica under PRNG statement-level schedules, race detector on; afterwards every key must show the newest of the updates that were delivered (memberlist calls these entry points from several goroutines)",
 		Real: real, Stub: stub, Assume: assume})
